@@ -731,6 +731,47 @@ class _SPS:
 SPS = _SPS()
 
 
+class _SymNorm:
+    """scipy.stats.norm by its definition (ppf, cdf, pdf through erf / erfinv / exp), native on plain numbers"""
+
+    def __getattr__(self, n):
+        import scipy.stats as st
+
+        return getattr(st.norm, n)
+
+    @staticmethod
+    def _sym(*xs):
+        return any(has_sym_fast(x) for x in xs)
+
+    def ppf(self, q, loc=0.0, scale=1.0):
+        if not self._sym(q, loc, scale):
+            import scipy.stats as st
+
+            return st.norm.ppf(q, loc=loc, scale=scale)
+        q = NPX.asarray(q, dtype=float)
+        return loc + scale * NPX.sqrt(2) * SPS.erfinv(2.0 * q - 1.0)
+
+    def cdf(self, x, loc=0.0, scale=1.0):
+        if not self._sym(x, loc, scale):
+            import scipy.stats as st
+
+            return st.norm.cdf(x, loc=loc, scale=scale)
+        x = NPX.asarray(x, dtype=float)
+        return 0.5 * (1.0 + SPS.erf((x - loc) / (scale * NPX.sqrt(2))))
+
+    def pdf(self, x, loc=0.0, scale=1.0):
+        if not self._sym(x, loc, scale):
+            import scipy.stats as st
+
+            return st.norm.pdf(x, loc=loc, scale=scale)
+        x = NPX.asarray(x, dtype=float)
+        z = (x - loc) / scale
+        return NPX.exp(-0.5 * z * z) / (scale * NPX.sqrt(2 * NPX.pi))
+
+
+SNORM = _SymNorm()
+
+
 # --------------------------------------------------------------------------
 # installation into the gstools modules
 
@@ -761,6 +802,15 @@ def install(extra=None):
             if nm in d and d[nm] is getattr(_sp, nm, None):
                 saved[nm] = d[nm]
                 d[nm] = getattr(SPS, nm)
+        try:
+            import scipy.stats as _st
+
+            for nm, val in list(d.items()):
+                if val is _st.norm:
+                    saved[nm] = val
+                    d[nm] = SNORM
+        except Exception:
+            pass
         for b, repl in (("float", sym_float), ("int", sym_int)):
             saved[b] = d.get(b, None)
             d[b] = repl
